@@ -309,3 +309,9 @@ func (o *Obs) CountLog(sub string) int {
 	}
 	return n
 }
+
+func removeFile(p string) error { return os.Remove(p) }
+
+// plentyNS is a -rapid.shrinktime that minimization of the small generated programs never reaches, so that
+// runs which are compared with each other are not cut at load-dependent points.
+const plentyNS = int64(60e9)
